@@ -29,10 +29,10 @@ def stepLine (d : DS) (args : List String) : DS × String :=
           | .refused => "refused"
           | .effective ps => if ps = [([105], [110])] then "inner" else "outer")
   | ["par", "reset"] => ({ d with par := {} }, "ok")
-  | ["par", "push", c] =>
-    match decStr c with
-    | some cl => let (s', o) := parStep d.par (.push cl []); ({ d with par := s' }, match o with | .urn u => s!"urn {u}" | _ => "?")
-    | none => (d, "bad-op")
+  | ["par", "push", c, ttl] =>
+    match decStr c, ttl.toNat? with
+    | some cl, some t => let (s', o) := parStep d.par (.push cl [] t); ({ d with par := s' }, match o with | .urn u => s!"urn {u}" | _ => "?")
+    | _, _ => (d, "bad-op")
   | ["par", "redeem", c, u] =>
     match decStr c, u.toNat? with
     | some cl, some un =>
